@@ -6,7 +6,8 @@ CONSTANTS
   Hs = {0}
   Rs = {0}
   Sums = {0}
-  MaxSum = 8160
+  MaxSum = 8000
+  FailSum = 1
   MaxFail = 3
   Sim = TRUE
 INVARIANTS Member ImplMatchesAbstract NoRepeat
